@@ -92,7 +92,7 @@ def Rd.next (src : Bytes) (r : Rd) : Bool × Rd :=
       (true, { r with prev := r.pos, vpos := r.vpos + 1 })
     else if !isIndent t && ((r.pos + 1 : Nat) : Int) < t.label.stop then
       let vpos := if src.getD r.pos 1 == 0 && src.getD (r.pos + 1) 1 == 0
-                  then (r.vpos + 1) % nullReplacementString.length else r.vpos
+                  then (r.vpos + 1) % nullReplacementString.length else 0
       (true, { r with prev := r.pos, pos := r.pos + 1, vpos := vpos })
     else
       match nextTextNode (r.spans.drop 1) with
